@@ -323,7 +323,6 @@ func c02One(text, fam string) (*core.Viol, bool) {
 }
 
 func runC02(c *core.Ctx) {
-	token.Init()
 	opt := corpusOptFor(c)
 	done, bounds := forEachCorpusText(c, opt, func(fam, text string) bool {
 		var isCase bool
@@ -379,7 +378,8 @@ func c02EvalOneOptions(c *core.Ctx) int {
 				for _, in := range prog {
 					_, _, errs, formatted := repl.EvalOne(context.Background(), s, in, &out, opts)
 					if len(errs) > 0 {
-						return nil // not a case under these options
+						// every program of this family is valid and error-free
+						return &core.Viol{Class: "evalone-unexpected-error", Detail: fmt.Sprintf("options %+v: input %q: %v", opts, in, errs), Case: cs}
 					}
 					want := parseText([]byte(in), false)
 					got := parseText([]byte(formatted), false)
